@@ -29,19 +29,20 @@ BOUNDS = {
              "mask bits of the kernel-level run (all masks of a shape in one query), origin and pixel scales (> 0) of every class-level case. "
              "ENUMERATED: input shapes 1..5 x 1..5, target shapes 1..6 x 1..6 (all 900 pairs, every parity combination) for resized_array_2d_from and "
              "Array2D.resized_from on unmasked input, incl. grow-then-shrink for every target >= input; extraction windows y0,x0 >= -2, y1,x1 <= size+2 of shapes <= 4x4; "
-             "Mask2D.resized_from / masked Array2D.resized_from: every mask (forked) of shapes with <= 6 pixels x targets 1..5 x 1..5; "
+             "Mask2D.resized_from / masked Array2D.resized_from: every mask (forked) of shapes with <= 6 pixels (sides <= 5) x targets 1..5 x 1..5; "
              "pad/trim: input shapes 1..5 x 1..5 (unmasked) and every mask of shapes with <= 6 pixels, odd kernels (1,1),(1,3),(3,1),(3,3),(1,5),(5,1),(3,5),(5,3),(5,5); "
+             "Mask2D.trimmed_array_from: padded frames 1..5 x 1..5, every image_shape <= frame; "
              "Imaging.apply_mask: every mask (>= 1 unmasked pixel) of shapes with <= 8 pixels plus 3x3, odd PSF shapes (1,1),(1,3),(3,1),(3,3),(3,5),(5,3); "
-             "zoom: every mask (>= 1 unmasked pixel) of shapes with <= 9 pixels plus 3x4, 4x3, 2x5, 5x2, buffers 0,1,2",
-    "thorough": "same obligations; input shapes 1..6 x 1..6, targets 1..8 x 1..8 (2304 pairs); extraction windows of shapes <= 5x5; masks of shapes with <= 9 pixels "
-                "(mask/array resize, pad/trim) / <= 10 pixels plus 3x4, 4x3 (Imaging.apply_mask, kernels up to (5,5)) / <= 12 pixels (zoom, buffers 0..3)",
+             "zoom: every mask (>= 1 unmasked pixel) of shapes with <= 9 pixels (sides <= 6) plus 2x5, 5x2, buffers 0,1,2",
+    "thorough": "same obligations; input shapes 1..6 x 1..6, targets 1..8 x 1..8 (2304 pairs); extraction windows of shapes <= 5x5; every mask of shapes with <= 8 pixels "
+                "x targets 1..6 x 1..6 (mask/array resize, pad/trim); every mask of shapes with <= 9 pixels plus 2x5, 5x2 (Imaging.apply_mask, odd PSF shapes up to (5,5)); "
+                "every mask of shapes with <= 9 pixels plus 3x4, 4x3, 2x5, 5x2, 2x6, 6x2 (zoom, buffers 0..3)",
 }
 OUTSIDE = [
     "shapes beyond the enumerated bounds; kernels with an axis longer than 5",
     "even kernel axes (padding by k-1 then changes the parity; the property quantifies over odd kernels only)",
     "which of the two admissible centres is used when the parity of an axis changes (docstring and code disagree; any offset o with |o-(Hin-Hout)/2| <= 1/2 is accepted, "
     "but array values and mask must use the same one)",
-    "Mask2D.trimmed_array_from with an odd size difference (returns image_shape+1 pixels; only reachable with even kernels)",
     "values written outside the frame by the zoom window (only in-frame pixels of the window are compared) and the origin of the zoomed array (C12)",
     "float64 rounding of the coordinates (exact real arithmetic in the solver; replay in float64 with 1e-7 tolerance)",
 ]
@@ -55,6 +56,26 @@ ASSUMPTIONS = [
 ]
 EXPLORER_OPTS = {"timeout_ms": 20000, "max_paths": 200000, "max_decisions": 50000}
 BUDGET_S = {"quick": 900, "thorough": 3000}
+
+
+class PadReal(V.SymReal):
+    """symbolic pad value whose truth value (`.astype(bool)` of the resized mask calls bool() once per padded cell) is decided
+    once per path and then reused - the later decisions are implied by the first one, this only saves the solver calls"""
+    __slots__ = ("_truth",)
+
+    def __bool__(self):
+        try:
+            return self._truth
+        except AttributeError:
+            self._truth = bool(self != 0)
+            return self._truth
+
+
+def pad_real(name):
+    return PadReal(z3.Real(name))
+
+
+_OFFSET_CACHE = {}
 
 ODD_KERNELS = [(1, 1), (1, 3), (3, 1), (3, 3), (1, 5), (5, 1), (3, 5), (5, 3), (5, 5)]
 
@@ -186,7 +207,7 @@ def body_kernel(inp, H, W, targets):
 
 
 def case_kernel(ctx, H, W, targets):
-    inputs = {"v": V.real_array("v", (H, W)), "b": V.bool_array("b", (H, W)), "p": V.real("p"), "pb": V.boolean("pb")}
+    inputs = {"v": V.real_array("v", (H, W)), "b": V.bool_array("b", (H, W)), "p": pad_real("p"), "pb": V.boolean("pb")}
     hx.run_body(ctx, body_kernel, inputs, {"H": H, "W": W, "targets": targets}, validate_every=1)
 
 
@@ -249,6 +270,15 @@ def _resize_obligations(A, E, tag, arr, m, mask, v, geo0, Ho, Wo, p, pad_b, fy, 
 
 def _class_offset(H, W, Ho, Wo):
     import autoarray as aa
+    key = (H, W, Ho, Wo, shim.ENABLED[0])
+    if key in _OFFSET_CACHE:
+        return _OFFSET_CACHE[key]
+    _OFFSET_CACHE[key] = r = _class_offset_uncached(H, W, Ho, Wo)
+    return r
+
+
+def _class_offset_uncached(H, W, Ho, Wo):
+    import autoarray as aa
     probe = hx.attempt(lambda: aa.Array2D.no_mask(values=labelled(H, W), pixel_scales=1.0).resized_from(new_shape=(Ho, Wo)).native.array)
     return read_offset(probe, H, W, cand(H, Ho), cand(W, Wo))
 
@@ -279,7 +309,7 @@ def _geometry_inputs(ctx):
 
 
 def case_array_resize(ctx, H, W, targets, store_native=False):
-    inputs = {"v": V.real_array("v", (H, W)), "p": V.real("p")}
+    inputs = {"v": V.real_array("v", (H, W)), "p": pad_real("p")}
     inputs.update(_geometry_inputs(ctx))
     hx.run_body(ctx, body_array_resize, inputs, {"H": H, "W": W, "targets": targets, "store_native": store_native}, validate_every=1)
 
@@ -314,7 +344,7 @@ def body_masked_resize(inp, H, W, targets):
 
 def case_masked_resize(ctx, H, W, targets):
     mask = _fork_mask(ctx, H, W)
-    inputs = {"mask": mask, "v": V.real_array("v", (H, W)), "p": V.real("p")}
+    inputs = {"mask": mask, "v": V.real_array("v", (H, W)), "p": pad_real("p")}
     inputs.update(_geometry_inputs(ctx))
     hx.run_body(ctx, body_masked_resize, inputs, {"H": H, "W": W, "targets": targets}, validate_every=16)
 
@@ -384,7 +414,7 @@ def case_pad_trim(ctx, H, W, kernels, all_masks=False):
         mask = _fork_mask(ctx, H, W)
     else:
         mask = np.full((H, W), False)
-    inputs = {"mask": mask, "v": V.real_array("v", (H, W)), "p": V.real("p")}
+    inputs = {"mask": mask, "v": V.real_array("v", (H, W)), "p": pad_real("p")}
     inputs.update(_geometry_inputs(ctx))
     hx.run_body(ctx, body_pad_trim, inputs, {"H": H, "W": W, "kernels": kernels}, validate_every=16 if all_masks else 1)
 
@@ -580,30 +610,37 @@ def cases(tier):
             out.append(("case_kernel", {"H": H, "W": W, "targets": targets}))
             out.append(("case_array_resize", {"H": H, "W": W, "targets": targets, "store_native": bool((H + W) % 2)}))
             out.append(("case_pad_trim", {"H": H, "W": W, "kernels": ODD_KERNELS, "all_masks": False}))
-    for Hp in range(1, n_in + 1):
-        for Wp in range(1, n_in + 1):
-            out.append(("case_mask_trim", {"Hp": Hp, "Wp": Wp}))
+            out.append(("case_mask_trim", {"Hp": H, "Wp": W}))
     ext = 4 if quick else 5
     for H in range(1, ext + 1):
         for W in range(1, ext + 1):
             out.append(("case_extract", {"H": H, "W": W, "margin": 2}))
-    cap_m = 6 if quick else 9
-    mt = [[a, b] for a in range(1, (5 if quick else 6) + 1) for b in range(1, (5 if quick else 6) + 1)]
-    for (H, W) in _shapes(cap_m, 6):
+    # every mask (forked) of the small shapes
+    cap_m = 6 if quick else 8
+    nt = 5 if quick else 6
+    mt = [[a, b] for a in range(1, nt + 1) for b in range(1, nt + 1)]
+    for (H, W) in _shapes(cap_m, n_in):
         sp = 0 if H * W < 6 else (2 if H * W <= 6 else 4)
         out.append(("case_masked_resize", {"H": H, "W": W, "targets": mt}, {"split": sp}))
         out.append(("case_pad_trim", {"H": H, "W": W, "kernels": ODD_KERNELS, "all_masks": True}, {"split": sp}))
     ik = [(1, 1), (1, 3), (3, 1), (3, 3), (3, 5), (5, 3)] + ([] if quick else [(1, 5), (5, 1), (5, 5)])
-    ishapes = _shapes(8, 5) + [(3, 3)] if quick else _shapes(10, 5) + [(3, 4), (4, 3)]
+    ishapes = (_shapes(8, 5) + [(3, 3)]) if quick else (_shapes(9, 5) + [(2, 5), (5, 2)])
     for (H, W) in ishapes:
         n = H * W
-        out.append(("case_imaging", {"H": H, "W": W, "kernels": ik}, {"split": 0 if n < 6 else (3 if n <= 9 else 5)}))
-    zshapes = _shapes(9, 6) + [(3, 4), (4, 3), (2, 5), (5, 2)] if quick else _shapes(12, 6)
+        out.append(("case_imaging", {"H": H, "W": W, "kernels": ik}, {"split": 0 if n < 6 else (3 if n <= 8 else 5)}))
+    zshapes = _shapes(9, 6) + [(2, 5), (5, 2)] + ([] if quick else [(3, 4), (4, 3), (2, 6), (6, 2)])
     for (H, W) in zshapes:
         n = H * W
         out.append(("case_zoom", {"H": H, "W": W, "buffers": [0, 1, 2] if quick else [0, 1, 2, 3]},
                     {"split": 0 if n < 8 else (3 if n <= 10 else 5)}))
-    out.sort(key=lambda c: -(c[1].get("H", c[1].get("Hp")) * c[1].get("W", c[1].get("Wp"))) * (4 if c[0] in ("case_masked_resize", "case_imaging", "case_zoom") or c[1].get("all_masks") else 1))
+
+    def weight(c):
+        kw = c[1]
+        n = kw.get("H", kw.get("Hp")) * kw.get("W", kw.get("Wp"))
+        heavy = c[0] in ("case_masked_resize", "case_imaging", "case_zoom") or kw.get("all_masks")
+        return -(2 ** n if heavy else n)
+
+    out.sort(key=weight)
     return out
 
 
